@@ -1,10 +1,17 @@
 import JL.Generated.Fns
-import JL.Tie.abstract_lte
+import JL.Lemmas.TieAuto
+import JL.Tie.to_number
 /-! tie: `abstract_gte`, as translated from the crate's current source, is the model's function - for every input -/
 namespace JL.Tie
 open JL
 
+/- The four relational helpers may be written in terms of one another (`a > b` as `b < a`, …): their generated definitions are all
+unfolded (none is recursive; `?`: those that exist), the conversions they call are replaced by the model's through the callee ties, the model's
+conversions are unfolded down to `toPrimitiveNumber` / `strToNumber`, whose values are then case-split wherever they occur. -/
 theorem abstract_gte (a b : Json) : Gen.abstract_gte a b = JsOp.abstractGte a b := by
-  simp [Gen.abstract_gte, JsOp.abstractGte, abstract_lte]
+  tie_close [Gen.abstract_gte, ?Gen.abstract_lt, ?Gen.abstract_gt, ?Gen.abstract_lte,
+      JsOp.abstractLt, JsOp.abstractGt, JsOp.abstractLte, JsOp.abstractGte, JsOp.toNumber, JsOp.toPrimitive,
+      to_number, to_primitive, to_primitive_number, to_string, str_to_number]
+    splitting JsOp.toPrimitiveNumber JsOp.strToNumber
 
 end JL.Tie
